@@ -410,9 +410,40 @@ func (check) Run(seed int64, tier string, idx int, verbose bool) harness.Result 
 	if idx < 5 {
 		res.Sample = map[string]string{"kind": kind, "input": desc}
 	}
+	execute(res, r, tier, verbose, part{kind: kind, desc: desc, runs: runs, needSchedules: needSchedules})
+
+	// second part of the case (round 4): one of the wide call kinds of wide.go,
+	// generated from a random stream of its own so that the first part is the
+	// same logical call as before
+	r2 := rand.New(rand.NewSource(harness.Mix(seed, "C09/wide", idx)))
+	p2 := widePart(res, r2, idx)
+	if idx < 5 {
+		if m, ok := res.Sample.(map[string]string); ok {
+			m["kind2"], m["input2"] = p2.kind, p2.desc
+		}
+	}
+	execute(res, r2, tier, verbose, p2)
+	return res.Done()
+}
+
+// part is one logical call of a case: the runners repeat it on rebuilt,
+// permuted arguments and return the outcome class.
+type part struct {
+	kind          string
+	desc          string
+	runs          map[string]runner
+	needSchedules bool
+	// sig names the order-dependence from the observed outcome classes; nil or
+	// "" = sigOf
+	sig func(name string, classes map[string]int) string
+}
+
+// execute runs the permutation / repetition schedule of one part and judges
+// the set of outcome classes.
+func execute(res *harness.R, r *rand.Rand, tier string, verbose bool, p part) {
+	kind, desc, runs, needSchedules := p.kind, p.desc, p.runs, p.needSchedules
 	res.SetAdd("kind", kind)
 
-	// the permutation / repetition schedule
 	perms := 8
 	reps := 12
 	if tier == "thorough" {
@@ -435,7 +466,7 @@ func (check) Run(seed int64, tier string, idx int, verbose bool) harness.Result 
 				cur.WriteByte(',')
 			}
 		})
-		for p := 0; p < perms; p++ {
+		for pi := 0; pi < perms; pi++ {
 			pseed := r.Int63()
 			for rep := 0; rep < reps; rep++ {
 				cur.Reset()
@@ -470,13 +501,19 @@ func (check) Run(seed int64, tier string, idx int, verbose bool) harness.Result 
 				cl = append(cl, fmt.Sprintf("%dx %s", n, c))
 			}
 			sort.Strings(cl)
-			res.Violate(sigOf(kind, name, classes), "%s on identical arguments gave %d different outcomes over %d calls (%d enumeration schedules): %s; input: %s", name, len(classes), perms*reps, len(schedules), strings.Join(cl, " | "), desc)
+			sig := ""
+			if p.sig != nil {
+				sig = p.sig(name, classes)
+			}
+			if sig == "" {
+				sig = sigOf(kind, name, classes)
+			}
+			res.Violate(sig, "%s on identical arguments gave %d different outcomes over %d calls (%d enumeration schedules): %s; input: %s", name, len(classes), perms*reps, len(schedules), strings.Join(cl, " | "), desc)
 		}
 		if verbose {
 			fmt.Printf("%s %s: classes=%v schedules=%d\n  %s\n", kind, name, classes, len(schedules), desc)
 		}
 	}
-	return res.Done()
 }
 
 // rawTop observes a config like obs.Top but renders the data RAW: a key holding
@@ -503,7 +540,44 @@ func rawTop(c *ucfg.Config, opts ...ucfg.Option) (string, error) {
 	fields := c.GetFields()
 	sort.Strings(fields)
 	fmt.Fprintf(&b, "|keys=%q|fields=%q|dict=%v|arr=%v", keys, fields, c.IsDict(), c.IsArray())
+	// the container kinds of every namespace below the top, as the handles the
+	// library hands out for them report them (round 4)
+	b.WriteString("|shape=")
+	shapeWalk(&b, c, "", 0, opts)
 	return b.String(), nil
+}
+
+// shapeWalk renders IsDict/IsArray and the number of settings of every
+// sub-configuration reachable through Child (names literally, then list
+// positions), at most 6 levels deep (references to enclosing objects).
+func shapeWalk(b *strings.Builder, c *ucfg.Config, path string, depth int, opts []ucfg.Option) {
+	if depth >= 6 {
+		return
+	}
+	ropts := opts // stored names never contain the separator: dotted keys are expanded at creation
+	names := c.GetFields()
+	sort.Strings(names)
+	total, _ := c.CountField("")
+	for _, n := range names {
+		ch, err := c.Child(n, -1, ropts...)
+		if err != nil || ch == nil {
+			continue
+		}
+		p := path + "/" + n
+		nn, _ := ch.CountField("")
+		fmt.Fprintf(b, "%s:d=%v,a=%v,n=%d;", p, ch.IsDict(), ch.IsArray(), nn)
+		shapeWalk(b, ch, p, depth+1, opts)
+	}
+	for i := 0; i < total-len(names) && i < 8; i++ {
+		ch, err := c.Child("", i, ropts...)
+		if err != nil || ch == nil {
+			continue
+		}
+		p := fmt.Sprintf("%s/#%d", path, i)
+		nn, _ := ch.CountField("")
+		fmt.Fprintf(b, "%s:d=%v,a=%v,n=%d;", p, ch.IsDict(), ch.IsArray(), nn)
+		shapeWalk(b, ch, p, depth+1, opts)
+	}
 }
 
 func rawRender(b *strings.Builder, v interface{}) {
@@ -547,6 +621,8 @@ func rawRender(b *strings.Builder, v interface{}) {
 func sigOf(kind, name string, classes map[string]int) string {
 	set := map[string]bool{}
 	for c := range classes {
+		// what a caller's target holds after the call is no part of the name
+		c = strings.SplitN(c, "|target=", 2)[0]
 		switch {
 		case strings.HasPrefix(c, "err:"), strings.HasPrefix(c, "unpack-err:"):
 			set[strings.ReplaceAll(strings.TrimPrefix(c, "unpack-"), " ", "-")] = true
